@@ -203,13 +203,139 @@ pub fn gen_case(tape: Vec<u8>) -> Case {
     Case { tx: txgen::gen_case(&mut u, max), key_hex: hex_lower(&key) }
 }
 
+// ---------------------------------------------------------------- documents HEAD may or may not accept
+
+/// Shapes the property does not oblige the tool to accept but whose meaning is fixed IF it does ("for every
+/// transaction accepted from JSON ... every field equal to the JSON value ... the kind is EIP-1559 when a
+/// fee-market field is present"): a redundant gasPrice next to fee-market fields, foreign keys as found in
+/// JSON-RPC transaction objects, access-list entries in the object notation of the JSON-RPC API.
+#[derive(Clone, Debug, Serialize, Deserialize)]
+pub struct LenientCase {
+    pub tx: TxCase,
+    pub key_hex: String,
+    pub what: String,
+}
+
+fn gen_lenient(tape: Vec<u8>) -> LenientCase {
+    use crate::gen::json::J;
+    use crate::gen::txgen::{gen_model, plain_number, render_with, Shape};
+    use crate::refimpl::hex0x;
+    let mut u = U::new(&tape);
+    let key = gen_valid_scalar(&mut u);
+    let variant = u.below(4);
+    let shape = match variant {
+        0 => [Shape::Eip1559, Shape::Eip1559NoList][u.below(2)],
+        2 => [Shape::Eip2930, Shape::Eip1559][u.below(2)],
+        _ => txgen::SHAPES[u.below(5)],
+    };
+    let (mut model, to_form) = gen_model(&mut u, shape, 100);
+    if variant == 2 && !model.access_list.iter().any(|(_, s)| !s.is_empty()) {
+        model.access_list.push((txgen::gen_address(&mut u), vec![[0x11; 32], [0x22; 32]]));
+    }
+    let J::Obj(mut kv) = render_with(&model, shape, &to_form, &mut u, &mut |_, x, u| plain_number(x, u)) else { unreachable!() };
+    let what = match variant {
+        0 => {
+            // fee-market fields AND a redundant gasPrice: still EIP-1559
+            let g = crate::gen::num::u256_boundary(&mut u);
+            let at = u.below(kv.len() + 1);
+            kv.insert(at, ("gasPrice".into(), plain_number(&g, &mut u)));
+            "redundant-gasPrice-with-fee-market-fields"
+        }
+        1 => {
+            // foreign keys of JSON-RPC transaction objects
+            let extras: [(&str, J); 8] = [
+                ("from", J::Str("0x90f8bf6a479f320ead074411a4b0e7944ea8c9c1".into())),
+                ("hash", J::Str(format!("0x{}", "ab".repeat(32)))),
+                ("type", J::Str(["0x0", "0x1", "0x2"][u.below(3)].into())),
+                ("input", J::Str("0xdeadbeef".into())),
+                ("v", J::Str("0x1b".into())),
+                ("r", J::Str("0x1".into())),
+                ("blockNumber", J::Null),
+                ("gasLimit", J::Num("21000".into())),
+            ];
+            let n = 1 + u.below(3);
+            for _ in 0..n {
+                let (k, v) = extras[u.below(extras.len())].clone();
+                if !kv.iter().any(|(kk, _)| kk == k) {
+                    let at = u.below(kv.len() + 1);
+                    kv.insert(at, (k.to_string(), v));
+                }
+            }
+            "foreign-keys"
+        }
+        2 => {
+            // access-list entries in object notation {"address":..,"storageKeys":[..]}
+            let all = u.bool();
+            let entries: Vec<J> = model
+                .access_list
+                .iter()
+                .enumerate()
+                .map(|(i, (a, slots))| {
+                    let keys = J::Arr(slots.iter().map(|s| J::Str(hex0x(s))).collect());
+                    if all || i % 2 == 0 || !slots.is_empty() {
+                        let mut o = vec![("address".to_string(), J::Str(hex0x(a))), ("storageKeys".to_string(), keys)];
+                        if u.bool() {
+                            o.swap(0, 1);
+                        }
+                        J::Obj(o)
+                    } else {
+                        J::Arr(vec![J::Str(hex0x(a)), keys])
+                    }
+                })
+                .collect();
+            for (k, v) in kv.iter_mut() {
+                if k == "accessList" {
+                    *v = J::Arr(entries.clone());
+                }
+            }
+            "access-list-object-notation"
+        }
+        _ => {
+            // duplicate of a key with the same value (last-wins or first-wins cannot matter)
+            let i = u.below(kv.len());
+            let dup = kv[i].clone();
+            let at = u.below(kv.len() + 1);
+            kv.insert(at, dup);
+            "duplicate-key-same-value"
+        }
+    };
+    let style = u.u64();
+    LenientCase { tx: TxCase { doc: J::Obj(kv).render_styled(style), model, to_form }, key_hex: hex_lower(&key), what: what.to_string() }
+}
+
+fn judge_lenient(c: &LenientCase, cls: &mut Classifier) -> Verdict {
+    let key: [u8; 32] = match unhex(&c.key_hex).and_then(|k| k.try_into().ok()) {
+        Some(k) if secp::is_valid_secret(&k) => k,
+        _ => return fail("valid key", c.key_hex.clone(), "bad replay case"),
+    };
+    // refusal is allowed: nothing is asserted then (but it must not panic)
+    match catch(|| serde_json::from_str::<Transaction>(&c.tx.doc).is_ok()) {
+        Err(p) => return fail("result or error", p, format!("transaction parsing panicked ({}): {}", c.what, crate::engine::truncate(&c.tx.doc, 500))),
+        Ok(false) => {
+            cls.unspecified(&format!("{}-refused", c.what));
+            cls.label(&format!("lenient/{}/refused", c.what));
+            return Ok(());
+        }
+        Ok(true) => {}
+    }
+    check_tx(&c.tx.doc, &c.tx.model, &key, cls).map_err(|mut e| {
+        e.note = format!("document accepted ({}), so its meaning is fixed by the property: {}", c.what, e.note);
+        e
+    })?;
+    cls.label(&format!("lenient/{}/accepted", c.what));
+    cls.nontrivial(&(c.tx.doc.as_str(), c.key_hex.as_str()));
+    cls.sample(&format!("lenient-{}", c.what), || json!({"what": c.what, "doc": crate::engine::truncate(&c.tx.doc, 600)}));
+    Ok(())
+}
+
 pub fn run(ctx: &mut Ctx) {
-    ctx.rule = "transaction record of kind {legacy without/with chain id, EIP-2930, EIP-1559 with/without accessList key}, numeric fields from the 256-bit boundary strategy, recipient absent/null/address, calldata lengths {0,1,2,31,32,55,56,57,255,256,uniform<=2000}, access lists of 0..4 entries x 0..4 slots with repeats, rendered to JSON with shuffled keys; key from the scalar strategy; signature = key.sign(signing_message()). Oracle: reference model (kind rule from keys, unsigned payload digest, signed payload bytes), strict canonical-RLP decode with field-by-field comparison, v/yParity formula, sender recovery over the reference digest. Non-trivial: not one of the four pinned near-empty transactions; distinct by (document, key).".into();
+    ctx.rule = "transaction record of kind {legacy without/with chain id, EIP-2930, EIP-1559 with/without accessList key}, numeric fields from the 256-bit boundary strategy, recipient absent/null/address, calldata lengths {0,1,2,31,32,55,56,57,255,256,uniform<=2000}, access lists of 0..4 entries x 0..4 slots with repeats, rendered to JSON with shuffled keys; key from the scalar strategy; signature = key.sign(signing_message()). Oracle: reference model (kind rule from keys, unsigned payload digest, signed payload bytes), strict canonical-RLP decode with field-by-field comparison, v/yParity formula, sender recovery over the reference digest. A second sub-check renders documents the tool need not accept but whose meaning is fixed if it does (redundant gasPrice next to fee-market fields, foreign JSON-RPC keys, access-list entries in object notation, a duplicated key): refused -> nothing asserted, accepted -> the same oracle applies. JSON text is re-spelled with random white space and string escapes. Non-trivial: not one of the four pinned near-empty transactions; distinct by (document, key).".into();
     ctx.assumptions = vec!["legacy chain ids are kept <= floor((2^256-37)/2) here; larger ones are C11's subject".into()];
     ctx.replay_known_and_regressions(&replay);
     let n = ctx.tier.pick(60_000, 1_000_000);
     ctx.run_prop("encode", n, || crate::gen::tape(1200).prop_map(gen_case), judge);
-    let total = ctx.cls.evaluations; // proptest cases only: the fuzz executions that follow are not classified
+    ctx.run_prop("lenient", ctx.tier.pick(20_000, 300_000), || crate::gen::tape(1200).prop_map(gen_lenient), judge_lenient);
+    let total = (n as u64).max(1); // floors are relative to the "encode" cases: the fuzz executions that follow are not classified
     crate::fuzz::run_for(ctx);
     for shape in ["legacy-nochain", "legacy-chain", "eip2930", "eip1559"] {
         for p in 0..2 {
@@ -226,6 +352,7 @@ pub fn run(ctx: &mut Ctx) {
 pub fn replay(sub: &str, case: &Value) -> Option<Verdict> {
     match sub {
         "encode" => Some(replay_as::<Case>(case, judge)),
+        "lenient" => Some(replay_as::<LenientCase>(case, judge_lenient)),
         _ => None,
     }
 }
